@@ -1,5 +1,5 @@
 (* Properties/C10.v — C10: blank = absent = GTFS default; fill-in and inheritance rules apply, nothing else. *)
-From GV Require Import Base.Prelude Model.Realtime Model.Static Proofs.StaticProofs Gen.Enums.
+From GV Require Import Base.Prelude Model.Realtime Model.Static Proofs.StaticProofs Proofs.PresentProofs Gen.Enums.
 
 (* the three column readers cannot tell a present-but-blank cell from an absent column - every row loop reads rows only through them *)
 Theorem C10_blank_is_absent : forall c0 v c d,
@@ -40,3 +40,13 @@ Proof.
   revert i E. induction stops as [|x stops IHs]; intros [|i] E; cbn in *; try discriminate; [injection E as ->; reflexivity|]. f_equal. now apply IHs.
 Qed.
 Print Assumptions C10_inheritance_only_wheelchair.
+
+(* ---- whole files: a row whose cell under c0 is blank and the same row with column c0 dropped have the same squashed view,
+   and every row loop factors through it (Properties/C01.v, C01_*_presentation, applies to any two tables related row by row by
+   [same_view]): spelling an optional value as a blank cell, or by leaving its column out of the file, gives the same result ---- *)
+Theorem C10_blank_cell_is_dropped_column : forall c0 v, same_view (blank_col c0 v) (drop_col c0 v).
+Proof. exact same_view_blank_dropped. Qed.
+Print Assumptions C10_blank_cell_is_dropped_column.
+Theorem C10_row_loops_read_squashed_views : forall pf stops trips v v', same_view v v' -> stop_time_row pf stops trips v = stop_time_row pf stops trips v'.
+Proof. exact stop_time_row_same. Qed.
+Print Assumptions C10_row_loops_read_squashed_views.
